@@ -3,6 +3,7 @@ package language
 import (
 	"bytes"
 	"fmt"
+	"math"
 	"reflect"
 	"strconv"
 	"strings"
@@ -564,6 +565,11 @@ func evalListIndexValue(node *Identifier, env *Environment) (int64, Object) {
 	number, ok := obj.(*Number)
 	if !ok {
 		return 0, newError("access index with [] only support N as index : got %q", obj.Type())
+	}
+
+	// a list index is a non-negative whole number
+	if number.Value < 0 || number.Value != math.Trunc(number.Value) || number.Value > math.MaxInt32 {
+		return 0, newError("invalid list index %s", number.Inspect())
 	}
 
 	return int64(number.Value), nil
